@@ -114,8 +114,24 @@ func builderGet(p value) string {
 
 func builderAppend(p value, s string) {
 	st := (*(p.(*value))).(structure)
+	if rs, ok := st[1].(runeStr); ok {
+		st[1] = runeStrConcat(rs, s)
+		return
+	}
 	cur, _ := st[1].(string)
 	st[1] = cur + s
+}
+
+func builderAppendRunes(p value, rs runeStr) {
+	st := (*(p.(*value))).(structure)
+	var cur value = ""
+	switch c := st[1].(type) {
+	case string:
+		cur = c
+	case runeStr:
+		cur = c
+	}
+	st[1] = runeStrConcat(cur, rs)
 }
 
 func init() {
@@ -155,6 +171,10 @@ func init() {
 		},
 
 		"(*strings.Builder).WriteString": func(fr *frame, a []value) value {
+			if rs, ok := a[1].(runeStr); ok {
+				builderAppendRunes(a[0], rs)
+				return tuple{len(rs), iface{}}
+			}
 			s := fr.i.strArg(a[1])
 			builderAppend(a[0], s)
 			return tuple{len(s), iface{}}
@@ -168,7 +188,13 @@ func init() {
 			builderAppend(a[0], string([]byte{a[1].(byte)}))
 			return iface{}
 		},
-		"(*strings.Builder).String": func(fr *frame, a []value) value { return builderGet(a[0]) },
+		"(*strings.Builder).String": func(fr *frame, a []value) value {
+			st := (*(a[0].(*value))).(structure)
+			if rs, ok := st[1].(runeStr); ok {
+				return rs
+			}
+			return builderGet(a[0])
+		},
 		"(*strings.Builder).Len":    func(fr *frame, a []value) value { return len(builderGet(a[0])) },
 
 		"strings.ToUpper":    func(fr *frame, a []value) value { return strings.ToUpper(a[0].(string)) },
@@ -550,7 +576,5 @@ func runeMap(fr *frame, name string, f func(rune) rune, r value) value {
 	return f(r.(rune))
 }
 
-func (i *interpreter) symRunePred(name string, s sym) value { panic(unsupported("symbolic rune predicate " + name)) }
-func (i *interpreter) symRuneMap(name string, s sym) value  { panic(unsupported("symbolic rune map " + name)) }
 
 func (i *interpreter) modStub(x, m sym) value { panic(unsupported("math.Mod on symbolic operands")) }
